@@ -1,8 +1,2 @@
 #include "vh.h"
 /* tables not yet implemented are empty */
-
-
-
-
-const VhOp vh_mem_ops[] = {{NULL, NULL}};
-
